@@ -1,0 +1,251 @@
+//go:build verif
+
+// Contracts for package pokertable, read by /verif/govc (comment-only file; compiles to nothing).
+
+package pokertable
+
+//@ devirt seat_manager.SeatManager = (*seat_manager.seatManager)
+
+// ---- manager (C17) ----------------------------------------------------------------------------
+// Calls through the TableEngine interface are not followed: they are recorded in the ghost call
+// log (callee, receiver, flattened arguments, results), and the contracts below pin the log.
+
+//@ opaque TableEngine
+
+//@ func iface pokertable.TableEngine.CreateTable
+//@   trusted the engine returns a table whenever it reports success (proved for (*tableEngine).CreateTable below)
+//@   returns table, err
+//@   ensures err == nil ==> table != nil
+
+//@ spec has(m, id) = smhas(m.tableEngines, id)
+//@ spec eng(m, id) = smref(m.tableEngines, id)
+// registry invariant, instantiated at the addressed id: a registered value is a non-nil TableEngine
+//@ spec regOK(m, id) = has(m, id) ==> smtag(m.tableEngines, id) != 0
+//@ spec noCall() = ncalls() == old(ncalls())
+//@ spec oneCall(m, id, name) = ncalls() == old(ncalls()) + 1 && callfn(old(ncalls())) == name && callrecv(old(ncalls())) == eng(m, id)
+//@ spec oneCallOld(m, id, name) = ncalls() == old(ncalls()) + 1 && callfn(old(ncalls())) == name && callrecv(old(ncalls())) == old(eng(m, id))
+//@ spec arg(k) = callarg(old(ncalls()), k)
+//@ spec res(k) = callres(old(ncalls()), k)
+
+//@ func (*manager).PauseTable
+//@   property C17
+//@   returns err
+//@   requires m != nil && regOK(m, tableID)
+//@   modifies log
+//@   ensures not-found: !has(m, tableID) ==> err == ErrManagerTableNotFound && noCall()
+//@   ensures forwarded: has(m, tableID) ==> oneCall(m, tableID, "pokertable.TableEngine.PauseTable") && err == res(0)
+
+//@ func (*manager).StartTableGame
+//@   property C17
+//@   returns err
+//@   requires m != nil && regOK(m, tableID)
+//@   modifies log
+//@   ensures not-found: !has(m, tableID) ==> err == ErrManagerTableNotFound && noCall()
+//@   ensures forwarded: has(m, tableID) ==> oneCall(m, tableID, "pokertable.TableEngine.StartTableGame") && err == res(0)
+
+//@ func (*manager).PlayerJoin
+//@   property C17
+//@   returns err
+//@   requires m != nil && regOK(m, tableID)
+//@   modifies log
+//@   ensures not-found: !has(m, tableID) ==> err == ErrManagerTableNotFound && noCall()
+//@   ensures forwarded: has(m, tableID) ==> oneCall(m, tableID, "pokertable.TableEngine.PlayerJoin") && arg(0) == playerID && err == res(0)
+
+//@ func (*manager).PlayerSettlementFinish
+//@   property C17
+//@   returns err
+//@   requires m != nil && regOK(m, tableID)
+//@   modifies log
+//@   ensures not-found: !has(m, tableID) ==> err == ErrManagerTableNotFound && noCall()
+//@   ensures forwarded: has(m, tableID) ==> oneCall(m, tableID, "pokertable.TableEngine.PlayerSettlementFinish") && arg(0) == playerID && err == res(0)
+
+//@ func (*manager).PlayersLeave
+//@   property C17
+//@   returns err
+//@   requires m != nil && regOK(m, tableID)
+//@   modifies log
+//@   ensures not-found: !has(m, tableID) ==> err == ErrManagerTableNotFound && noCall()
+//@   ensures forwarded: has(m, tableID) ==> oneCall(m, tableID, "pokertable.TableEngine.PlayersLeave") && arg(0) == ref(playerIDs) && arg(2) == len(playerIDs) && err == res(0)
+
+//@ func (*manager).PlayerReady
+//@   property C17
+//@   returns err
+//@   requires m != nil && regOK(m, tableID)
+//@   modifies log
+//@   ensures not-found: !has(m, tableID) ==> err == ErrManagerTableNotFound && noCall()
+//@   ensures forwarded: has(m, tableID) ==> oneCall(m, tableID, "pokertable.TableEngine.PlayerReady") && arg(0) == playerID && err == res(0)
+
+//@ func (*manager).PlayerPay
+//@   property C17
+//@   returns err
+//@   requires m != nil && regOK(m, tableID)
+//@   modifies log
+//@   ensures not-found: !has(m, tableID) ==> err == ErrManagerTableNotFound && noCall()
+//@   ensures forwarded: has(m, tableID) ==> oneCall(m, tableID, "pokertable.TableEngine.PlayerPay") && arg(0) == playerID && arg(1) == chips && err == res(0)
+
+//@ func (*manager).PlayerBet
+//@   property C17
+//@   returns err
+//@   requires m != nil && regOK(m, tableID)
+//@   modifies log
+//@   ensures not-found: !has(m, tableID) ==> err == ErrManagerTableNotFound && noCall()
+//@   ensures forwarded: has(m, tableID) ==> oneCall(m, tableID, "pokertable.TableEngine.PlayerBet") && arg(0) == playerID && arg(1) == chips && err == res(0)
+
+//@ func (*manager).PlayerRaise
+//@   property C17
+//@   returns err
+//@   requires m != nil && regOK(m, tableID)
+//@   modifies log
+//@   ensures not-found: !has(m, tableID) ==> err == ErrManagerTableNotFound && noCall()
+//@   ensures forwarded: has(m, tableID) ==> oneCall(m, tableID, "pokertable.TableEngine.PlayerRaise") && arg(0) == playerID && arg(1) == chipLevel && err == res(0)
+
+//@ func (*manager).PlayerCall
+//@   property C17
+//@   returns err
+//@   requires m != nil && regOK(m, tableID)
+//@   modifies log
+//@   ensures not-found: !has(m, tableID) ==> err == ErrManagerTableNotFound && noCall()
+//@   ensures forwarded: has(m, tableID) ==> oneCall(m, tableID, "pokertable.TableEngine.PlayerCall") && arg(0) == playerID && err == res(0)
+
+//@ func (*manager).PlayerAllin
+//@   property C17
+//@   returns err
+//@   requires m != nil && regOK(m, tableID)
+//@   modifies log
+//@   ensures not-found: !has(m, tableID) ==> err == ErrManagerTableNotFound && noCall()
+//@   ensures forwarded: has(m, tableID) ==> oneCall(m, tableID, "pokertable.TableEngine.PlayerAllin") && arg(0) == playerID && err == res(0)
+
+//@ func (*manager).PlayerCheck
+//@   property C17
+//@   returns err
+//@   requires m != nil && regOK(m, tableID)
+//@   modifies log
+//@   ensures not-found: !has(m, tableID) ==> err == ErrManagerTableNotFound && noCall()
+//@   ensures forwarded: has(m, tableID) ==> oneCall(m, tableID, "pokertable.TableEngine.PlayerCheck") && arg(0) == playerID && err == res(0)
+
+//@ func (*manager).PlayerFold
+//@   property C17
+//@   returns err
+//@   requires m != nil && regOK(m, tableID)
+//@   modifies log
+//@   ensures not-found: !has(m, tableID) ==> err == ErrManagerTableNotFound && noCall()
+//@   ensures forwarded: has(m, tableID) ==> oneCall(m, tableID, "pokertable.TableEngine.PlayerFold") && arg(0) == playerID && err == res(0)
+
+//@ func (*manager).PlayerPass
+//@   property C17
+//@   returns err
+//@   requires m != nil && regOK(m, tableID)
+//@   modifies log
+//@   ensures not-found: !has(m, tableID) ==> err == ErrManagerTableNotFound && noCall()
+//@   ensures forwarded: has(m, tableID) ==> oneCall(m, tableID, "pokertable.TableEngine.PlayerPass") && arg(0) == playerID && err == res(0)
+
+//@ func (*manager).SetUpTableGame
+//@   property C17
+//@   returns err
+//@   requires m != nil && regOK(m, tableID)
+//@   modifies log
+//@   ensures not-found: !has(m, tableID) ==> err == ErrManagerTableNotFound && noCall()
+//@   ensures forwarded: has(m, tableID) ==> oneCall(m, tableID, "pokertable.TableEngine.SetUpTableGame") && arg(0) == gameCount && arg(1) == ref(participants) && err == nil
+
+//@ func (*manager).UpdateBlind
+//@   property C17
+//@   returns err
+//@   requires m != nil && regOK(m, tableID)
+//@   modifies log
+//@   ensures not-found: !has(m, tableID) ==> err == ErrManagerTableNotFound && noCall()
+//@   ensures forwarded: has(m, tableID) ==> oneCall(m, tableID, "pokertable.TableEngine.UpdateBlind")
+//@             && arg(0) == level && arg(1) == ante && arg(2) == dealer && arg(3) == sb && arg(4) == bb && err == nil
+
+//@ func (*manager).UpdateTablePlayers
+//@   property C17
+//@   returns seats, err
+//@   requires m != nil && regOK(m, tableID)
+//@   modifies log
+//@   ensures not-found: !has(m, tableID) ==> err == ErrManagerTableNotFound && seats == nil && noCall()
+//@   ensures forwarded: has(m, tableID) ==> oneCall(m, tableID, "pokertable.TableEngine.UpdateTablePlayers")
+//@             && arg(0) == ref(joinPlayers) && arg(2) == len(joinPlayers) && arg(3) == ref(leavePlayerIDs) && arg(5) == len(leavePlayerIDs)
+//@             && ref(seats) == res(0) && err == res(1)
+
+//@ func (*manager).PlayerReserve
+//@   property C17
+//@   returns err
+//@   requires m != nil && regOK(m, tableID)
+//@   modifies log
+//@   ensures not-found: !has(m, tableID) ==> err == ErrManagerTableNotFound && noCall()
+//@   ensures forwarded: has(m, tableID) ==> oneCall(m, tableID, "pokertable.TableEngine.PlayerReserve")
+//@             && arg(0) == joinPlayer.PlayerID && arg(1) == joinPlayer.RedeemChips && arg(2) == joinPlayer.Seat && err == res(0)
+
+//@ func (*manager).PlayerRedeemChips
+//@   property C17
+//@   returns err
+//@   requires m != nil && regOK(m, tableID)
+//@   modifies log
+//@   ensures not-found: !has(m, tableID) ==> err == ErrManagerTableNotFound && noCall()
+//@   ensures forwarded: has(m, tableID) ==> oneCall(m, tableID, "pokertable.TableEngine.PlayerRedeemChips")
+//@             && arg(0) == joinPlayer.PlayerID && arg(1) == joinPlayer.RedeemChips && arg(2) == joinPlayer.Seat && err == res(0)
+
+//@ func (*manager).PlayerExtendActionDeadline
+//@   property C17
+//@   returns endAt, err
+//@   requires m != nil && regOK(m, tableID)
+//@   modifies log
+//@   ensures not-found: !has(m, tableID) ==> err == ErrManagerTableNotFound && endAt == -1 && noCall()
+//@   ensures forwarded: has(m, tableID) ==> oneCall(m, tableID, "pokertable.TableEngine.PlayerExtendActionDeadline")
+//@             && arg(0) == playerID && arg(1) == duration && endAt == res(0) && err == res(1)
+
+//@ func (*manager).GetTableEngine
+//@   property C17
+//@   returns e, err
+//@   requires m != nil && regOK(m, tableID)
+//@   modifies nothing
+//@   ensures not-found: !has(m, tableID) ==> err == ErrManagerTableNotFound && e == nil
+//@   ensures found: has(m, tableID) ==> err == nil && ref(e) == eng(m, tableID) && e != nil
+
+//@ func (*manager).CloseTable
+//@   property C17
+//@   returns err
+//@   requires m != nil && regOK(m, tableID)
+//@   modifies log, m.tableEngines
+//@   ensures not-found: !old(has(m, tableID)) ==> err == ErrManagerTableNotFound && noCall() && !has(m, tableID)
+//@   ensures forwarded: old(has(m, tableID)) ==> oneCallOld(m, tableID, "pokertable.TableEngine.CloseTable") && err == res(0)
+//@   ensures deregistered: old(has(m, tableID)) ==> (has(m, tableID) <==> err != nil)
+//@   ensures others-untouched: all(id, id != tableID ==> (has(m, id) <==> old(has(m, id))) && eng(m, id) == old(eng(m, id)))
+
+//@ func (*manager).ReleaseTable
+//@   property C17
+//@   returns err
+//@   requires m != nil && regOK(m, tableID)
+//@   modifies log, m.tableEngines
+//@   ensures not-found: !old(has(m, tableID)) ==> err == ErrManagerTableNotFound && noCall() && !has(m, tableID)
+//@   ensures forwarded: old(has(m, tableID)) ==> oneCallOld(m, tableID, "pokertable.TableEngine.ReleaseTable") && err == res(0)
+//@   ensures deregistered: old(has(m, tableID)) ==> (has(m, tableID) <==> err != nil)
+//@   ensures others-untouched: all(id, id != tableID ==> (has(m, id) <==> old(has(m, id))) && eng(m, id) == old(eng(m, id)))
+
+//@ func NewTableEngine
+//@   property C17
+//@   returns e
+//@   requires 0 <= len(opts) && len(opts) <= 2
+//@   loop 0 unroll 2
+//@   modifies log
+//@   ensures fresh-engine: e != nil && fresh(e) && typeis(e, "*pokertable.tableEngine")
+
+//@ spec cbCall(k, name, f) = callfn(ncalls() - k) == name && callarg(ncalls() - k, 0) == ref(f)
+
+//@ func (*manager).CreateTable
+//@   property C17
+//@   returns table, err
+//@   requires m != nil
+//@   modifies log, m.tableEngines
+//@   ensures created-registered: err == nil ==> table != nil && has(m, table.ID) && smtag(m.tableEngines, table.ID) != 0 && fresh(eng(m, table.ID))
+//@             && callfn(ncalls() - 1) == "pokertable.TableEngine.CreateTable" && callrecv(ncalls() - 1) == eng(m, table.ID) && ref(table) == callres(ncalls() - 1, 0)
+//@   ensures failed-registers-nothing: err != nil ==> table == nil && all(id, (has(m, id) <==> old(has(m, id))) && eng(m, id) == old(eng(m, id)))
+//@   ensures others-untouched: err == nil ==> all(id, id != table.ID ==> (has(m, id) <==> old(has(m, id))) && eng(m, id) == old(eng(m, id)))
+//@   ensures callbacks-wired: callbacks != nil ==> cbCall(9, "pokertable.TableEngine.OnTableUpdated", callbacks.OnTableUpdated)
+//@             && cbCall(8, "pokertable.TableEngine.OnTableErrorUpdated", callbacks.OnTableErrorUpdated)
+//@             && cbCall(7, "pokertable.TableEngine.OnTableStateUpdated", callbacks.OnTableStateUpdated)
+//@             && cbCall(6, "pokertable.TableEngine.OnTablePlayerStateUpdated", callbacks.OnTablePlayerStateUpdated)
+//@             && cbCall(5, "pokertable.TableEngine.OnTablePlayerReserved", callbacks.OnTablePlayerReserved)
+//@             && cbCall(4, "pokertable.TableEngine.OnGamePlayerActionUpdated", callbacks.OnGamePlayerActionUpdated)
+//@             && cbCall(3, "pokertable.TableEngine.OnAutoGameOpenEnd", callbacks.OnAutoGameOpenEnd)
+//@             && cbCall(2, "pokertable.TableEngine.OnReadyOpenFirstTableGame", callbacks.OnReadyOpenFirstTableGame)
+//@   ensures one-engine: forall(k, 1, 10, callrecv(ncalls() - k) == callrecv(ncalls() - 1))
